@@ -503,6 +503,13 @@ func streamReq(c *Ctx) {
 					}
 				}
 			}
+			for _, sent := range []string{"gz\xffip", "\xc3\x28"} {
+				body := []byte{1, 2}
+				if !(proto == "connect" && kind == "unary") {
+					body = frame(0, body)
+				}
+				hreqOp(c, fmt.Sprintf("hreq proto=%s kind=%s max=0 sent=%s tmo=- flat=%s tail=eof seg=-", proto, kind, hx([]byte(sent)), hx(body)))
+			}
 			// the largest limits there are, with plain, compressed and undecodable payloads:
 			// nothing wraps around, the message arrives as sent or is rejected
 			for _, max := range []int{math.MaxInt64, math.MaxInt64 - 1} {
@@ -523,6 +530,9 @@ func streamReq(c *Ctx) {
 			}
 			for i := 0; i < n; i++ {
 				sent := []string{"", "", "", "rle", "rle", "identity", "br", "zz"}[r.Intn(8)]
+				if r.Chance(6) { // names with bytes that are not UTF-8: still just unknown names
+					sent = []string{"gz\xffip", "\xc3\x28", "\x80zz", "br\xfe"}[r.Intn(4)]
+				}
 				comp := sent == "rle"
 				max := []int{0, 0, 0, 8, 64}[r.Intn(5)]
 				if r.Chance(8) { // the largest limits there are: nothing may wrap around
